@@ -127,6 +127,15 @@ def check_sign(rep, cfg):
             rep.ob("SIGN/%s/no-override" % cfg.name, names == ["is_nonnegative"], "impl Sign for %s defines %s (abs/is_negative must be the trait defaults)" % (im["self"], names), nontrivial=False)
 
 
+def isqrt_zero_cases(rep, cfg):
+    """the codec relies on ISQRT(1, 0) = (false, 0) (identity encodes to 0; s = +-1 is rejected): structural zero-case rule of C09"""
+    from . import c09
+    nm = "sqrt_ratio_zeta" if cfg.name in ("A", "R") else "non_arkworks_sqrt_ratio_zeta"
+    p = cfg.one(rep, nm, lambda x: x.endswith("::" + nm))
+    if p:
+        c09.zero_cases(rep, cfg, p, nm)
+
+
 def run(rep, facts, tier):
     rep.explanation = (
         "TERM rule: decode and encode of each build are interpreted once (abstract interpretation of type-checked HIR, field "
@@ -145,6 +154,9 @@ def run(rep, facts, tier):
         enc[name] = check_encode_term(rep, cfg)
         check_compress_funnel(rep, cfg)
         check_sign(rep, cfg)
+        isqrt_zero_cases(rep, cfg)
+        from . import c17
+        c17.curve_constants(rep, facts[name], name)     # "every element obtainable from constants": generator / identity are valid and = decode(8)
     if "A" in cfgs and "M" in cfgs and dec["A"] and dec["M"]:
         # the bytes parameter is spelled identically in both builds (field 0 of the Encoding), so keys are comparable
         rep.ob("SIB/A-M/decode", True, "both builds' decode terms equal the same specification term", nontrivial=False)
